@@ -124,6 +124,9 @@ def c06_generate(seed: int, tier: str) -> dict:
             value = round(orr.uniform(base, base + 50), 2)
         elif chance(orr, 0.15) and path[0] not in ("zones", "nz", "asof"):
             value = None
+        elif chance(orr, 0.3) and any(isinstance(v, float) for _d, v in _vals):
+            # the very value the parameter already has somewhere in its history
+            value = pick(orr, [v for _d, v in _vals if isinstance(v, float)])
         else:
             value = round(orr.uniform(0, 10), 2)
         ops.append({"actor": "W", "do": ["update", list(path), rg, value]})
